@@ -542,8 +542,12 @@ def run_smoke(drv, case) -> Outcome:
                 emu.set_initial_state(init)
         legacy = emu.run()
         out.detail = dict(T=T, basis=emu.basis_name, times=rel_times)
-        stochastic = not hasattr(legacy, "_meas_basis")          # NoisyResults: no states to compare
-        if not stochastic:
+        # random noise (doppler, amplitude, state preparation): the legacy emulator returns one random
+        # trajectory or sampled counts, V2 the average density matrix over `runs` - nothing to compare
+        # state by state; only the physicality of what V2 returns is looked at
+        stochastic = (not hasattr(legacy, "_meas_basis")) or bool(
+            noise and any(k in noise for k in ("temperature", "amp_sigma", "state_prep_error")))
+        if hasattr(legacy, "_meas_basis"):
             for st in legacy.states:
                 out.evaluations += 1
                 if st.isket:
@@ -597,8 +601,11 @@ def run_smoke(drv, case) -> Outcome:
             for s in res.state:
                 out.evaluations += 1
                 m = s.to_qobj().full()
-                if abs(np.trace(m) - 1) > 1e-6:
-                    out.fail("density-matrix-physical", f"averaged density matrix has trace {np.trace(m)}")
+                ev = np.linalg.eigvalsh((m + m.conj().T) / 2)
+                if abs(np.trace(m) - 1) > 2e-5 or np.max(np.abs(m - m.conj().T)) > 1e-8 or ev.min() < -1e-6:
+                    out.fail("density-matrix-physical",
+                             f"averaged density matrix: trace {np.trace(m)}, hermiticity "
+                             f"{np.max(np.abs(m - m.conj().T)):.2g}, min eig {ev.min():.2g}")
             return out
         v2_ts = [float(x) for x in res.get_result_times(state_obs)]
         for t_rel, s in zip(v2_ts, res.state):
